@@ -39,19 +39,27 @@ J1 == Insp("j1", <<"j", "1">>, Cmd("exit", 0, "none"), FALSE)
 
 \* "rule_match_insp": the failing step also has a MATCH rule that names an INSPECTION (no link for that
 \* name exists when the step rules are applied: the rule consumes nothing and the step still fails)
+\* "surplus_*": the step has a valid plain link by k2 AND a sub-layout by k1 that fails (expired / its own
+\* inspection exits non-zero / its inner link is missing): the failing evidence is not needed for the threshold
 Causes == {"none", "badsig", "expired", "missing", "unauth", "badlinksig", "thr", "disagree",
-           "rule", "rule_match_insp", "subfail", "subok", "subok_rule"}
+           "rule", "rule_match_insp", "subfail", "subok", "subok_rule",
+           "surplus_subexpired", "surplus_subinspfail", "surplus_submissing"}
 
 Sub(exp) ==
   LayoutD(<<GoodSig("k1")>>, exp, <<"k3">>,
           <<StepD("in1", <<"k3">>, 1, << >>, <<Simple("CREATE", PA)>>)>>, <<J1>>)
+SubInspFail ==
+  LayoutD(<<GoodSig("k1")>>, 1000, <<"k3">>,
+          <<StepD("in1", <<"k3">>, 1, << >>, <<Simple("CREATE", PA)>>)>>,
+          <<Insp("j1", <<"j", "1">>, Cmd("exit", 3, "none"), FALSE)>>)
+Surplus == {"surplus_subexpired", "surplus_subinspfail", "surplus_submissing"}
 
 Layout(cause, insps) ==
   LayoutD(IF cause = "badsig" THEN <<BadSig("o1")>> ELSE <<GoodSig("o1")>>,
           IF cause = "expired" THEN -10 ELSE 1000,
           <<"k1", "k2", "k3">>,
           <<StepD("s1",
-                  IF cause \in {"thr", "disagree"} THEN <<"k1", "k2">> ELSE <<"k1">>,
+                  IF cause \in {"thr", "disagree"} \cup Surplus THEN <<"k1", "k2">> ELSE <<"k1">>,
                   IF cause \in {"thr", "disagree"} THEN 2 ELSE 1,
                   << >>,
                   CASE cause \in {"rule", "subok_rule"} -> <<Simple("DISALLOW", <<"*">>)>>
@@ -67,6 +75,13 @@ Files(cause) ==
                                  Entry(<< >>, "s1", "k2", LinkD("s1", <<GoodSig("k2")>>, {}, {Art(PA, "h2")}))>>
     [] cause = "subfail"    -> <<Entry(<< >>, "s1", "k1", Sub(-10)),
                                  Entry(<<"s1.k1">>, "in1", "k3", LinkD("in1", <<GoodSig("k3")>>, {}, ProdA))>>
+    [] cause \in Surplus ->
+         <<Entry(<< >>, "s1", "k2", LinkD("s1", <<GoodSig("k2")>>, {}, ProdA)),
+           Entry(<< >>, "s1", "k1", CASE cause = "surplus_subexpired" -> Sub(-10)
+                                      [] cause = "surplus_subinspfail" -> SubInspFail
+                                      [] OTHER -> Sub(1000))>>
+         \o (IF cause = "surplus_submissing" THEN << >>
+             ELSE <<Entry(<<"s1.k1">>, "in1", "k3", LinkD("in1", <<GoodSig("k3")>>, {}, ProdA))>>)
     [] cause \in {"subok", "subok_rule"} ->
                                <<Entry(<< >>, "s1", "k1", Sub(1000)),
                                  Entry(<<"s1.k1">>, "in1", "k3", LinkD("in1", <<GoodSig("k3")>>, {}, ProdA))>>
